@@ -43,6 +43,7 @@ def check_m1(ctx) -> None:
             if d in mi.functions and mi.functions[d] not in in_task:
                 in_task.append(mi.functions[d])
         draws: List[Tuple[object, ast.Call]] = []
+        gen_draws = 0
         for f in in_task:
             local_gens: Set[str] = set()
             for st in ast.walk(f.node):
@@ -62,7 +63,11 @@ def check_m1(ctx) -> None:
                         draws.append((f, c))
                 elif len(parts) == 2 and parts[0] == 'random' and parts[1] not in NON_DRAWS and 'random' in f.module.imports:
                     draws.append((f, c))
-        ctx.floor('M1', len(draws), 5, 'global-generator draw sites in pool workers')
+                elif len(parts) == 2 and parts[0] in local_gens and parts[1] not in NON_DRAWS:
+                    gen_draws += 1
+                    ctx.ok('M1', f'{f.qualname}/draw:{d}', f'{f.module.rel}:{c.lineno}', 'drawn from a per-task generator seeded from OS entropy')
+        # the floor counts every draw site (global or per-task generator): a partial migration must not hide the remaining global draws
+        ctx.floor('M1', len(draws) + gen_draws, 5, 'draw sites in pool workers')
         # pool-level reseeding
         init_ok = False
         for kw in ctor.keywords:
@@ -107,6 +112,8 @@ def check_m3(ctx) -> None:
             recv = norm(n.test.func.value)
             if recv.startswith('input_value[1]'):
                 arms.append((n.test.args[0].value, n))
+    gens = {st.targets[0].id for st in ast.walk(w.node) if isinstance(st, ast.Assign) and isinstance(st.value, ast.Call) and
+            (dotted_name(st.value.func) or '').endswith('default_rng') and isinstance(st.targets[0], ast.Name)}
     names = [a for a, _ in arms]
     ctx.check(sorted(names) == sorted(DISTS), 'M3', 'work_package/dispatch-exhaustive', w.where,
               f'distribution dispatch handles {sorted(names)}, documented set is {sorted(DISTS)}',
@@ -114,7 +121,8 @@ def check_m3(ctx) -> None:
     for name, node in arms:
         key = f'work_package/arm:{name}'
         where = f'{w.module.rel}:{node.lineno}'
-        draws = [c for st in node.body for c in calls_in(st) if (dotted_name(c.func) or '').startswith('np.random.')]
+        draws = [c for st in node.body for c in calls_in(st) if (dotted_name(c.func) or '').startswith('np.random.') or
+                 (dotted_name(c.func) or '').split('.')[0] in gens]
         if len(draws) != 1:
             ctx.bad('M3', key, where, f'arm {name!r} draws {len(draws)} times')
             continue
